@@ -17,6 +17,9 @@ session 4: limits ABOVE the default read size (20000, 40000, 65536) with buffer 
           and at the edge of the accepted zone, for every buffered serializer family incl. base64 (new framer kind here) and file
           toys with a 2..4-byte length header (`_big_limits`; model runs of big frames are sub-sampled); options that leave the
           framing alone (ASCII-transparent encodings x error handlers, JSON knobs, separator check off).
+round 5  : case kind `flood` (vlib/c07_flood.py, docs/C07.md): floods of IGNORABLE input far beyond the limit — JSON whitespace (every
+          alphabet) between and inside raw JSON documents, whitespace-only JSON lines, repeated separators (empty frames), separator
+          heads, zero-length file frames — in front of, between and behind complete frames; bound after every read, then resumption.
 """
 from __future__ import annotations
 
@@ -24,6 +27,7 @@ from typing import Any
 
 from vlib import core, sers, streamdrive as sd
 from vlib import jraw  # ---- raw JSON framer ----
+from vlib import c07_flood  # ---- round 5: floods of ignorable input ----
 
 from easynetwork.exceptions import StreamProtocolParseError
 from easynetwork.lowlevel._stream import BufferedStreamDataConsumer, StreamDataConsumer
@@ -51,7 +55,9 @@ TRUSTED_BASE = [
 ]
 ASSUMPTIONS = ["'held' on the copying path = bytes fed since the last delivered item (the generator's buffer is not publicly visible)",
                "separator length <= limit"]
-RULE = ("case = framer x payload length (0..limit+|sep|+read) x terminated? x cuts x path; non-trivial = length inside the band "
+RULE = ("case = framer x payload length (0..limit+|sep|+read) x terminated? x cuts x path; kind flood: framer x unit of ignorable input "
+        "(whitespace / empty frames / separator heads) x flood length (limit+1 .. 300 x limit) x position (boundary, inside a document) "
+        "x what follows x cuts x path; non-trivial = length inside the band "
         "[limit-|sep|-1, limit+|sep|+1] or unterminated beyond the limit; distinct by case digest")
 
 _aux: dict[str, Any] = {}
@@ -110,6 +116,8 @@ def _unterminated(case: dict) -> bytes:
 
 
 def _stream(case: dict) -> bytes:
+    if case.get("kind") == "flood":        # ---- round 5: floods of ignorable input (vlib/c07_flood.py) ----
+        return c07_flood.stream(case, _payload)
     spec = case["spec"]
     n = case["n"]
     k = sers.recv_spec(spec)["k"]
@@ -215,6 +223,8 @@ def real_for_diff(case: dict, real: list[str]) -> list[str]:
 def model_input(case: dict, real: list[str]):
     if "loop" in real or any(ln.startswith("mutated ") for ln in real):
         return None
+    if case.get("kind") == "flood" and not c07_flood.model_ok(case):
+        return None         # (floods far beyond the limit: oracle only)
     if case["n"] > 8192:
         # the Lean separator framer models are quadratic in the frame length (and the buffered one in the limit): of the frames
         # above 8 KiB, one in forty of those up to 21000 bytes under a limit of at most 20000 goes through them, and one in three
@@ -534,3 +544,9 @@ from vlib import genericfr as _genericfr  # noqa: E402
 
 _genericfr.install(globals(), "C07")
 # ---- end generic framers ----
+
+# ---- round 5: floods of ignorable input ----
+# adds the case kind "flood" (vlib/c07_flood.py): whitespace between / inside raw JSON documents, whitespace-only JSON lines, repeated
+# separators (empty frames), separator heads, zero-length file frames — far beyond the limit, any chunking, then resumption
+c07_flood.install(globals())
+# ---- end round 5 ----
